@@ -354,6 +354,9 @@ pub struct Session {
     /// Disk faults *inside* an operation of the server: (ordinal of the `disk:*` point the main
     /// loop reaches in this session, what happens to the disk while it is parked there).
     pub midload: Vec<(u64, DiskOp)>,
+    /// Disk faults anchored to an operation: (index of the operation, ordinal of the `disk:*` point
+    /// the main loop reaches after that operation was sent, what happens to the disk).
+    pub midload_at: Vec<(usize, u64, DiskOp)>,
     pub decisions: Option<Vec<String>>,
     /// Targeted delay: a task parked at the first point is not scheduled until the main loop has
     /// passed the second point after that (or nothing else can run, or 400 steps have gone by).
@@ -377,6 +380,7 @@ pub fn preamble_of(s: &Session) -> Vec<PlannedOp> {
 pub fn preamble_caps(root_uri: Option<&str>, rich: bool) -> Vec<PlannedOp> {
     let caps = if rich {
         json!({
+            "general": {"positionEncodings": ["utf-16"]},
             "window": {"workDoneProgress": true, "showMessage": {"messageActionItem": {"additionalPropertiesSupport": true}}},
             "workspace": {"configuration": true, "didChangeWatchedFiles": {"dynamicRegistration": true, "relativePatternSupport": true}},
         })
@@ -393,6 +397,18 @@ pub fn preamble_caps(root_uri: Option<&str>, rich: bool) -> Vec<PlannedOp> {
 }
 
 impl Session {
+    /// Remove operations `lo..hi`; faults anchored to a removed operation go with it, the others
+    /// keep pointing at the operation they were planned for.
+    pub fn drain_ops(&mut self, lo: usize, hi: usize) {
+        self.ops.drain(lo..hi);
+        self.midload_at.retain(|(i, _, _)| *i < lo || *i >= hi);
+        for (i, _, _) in self.midload_at.iter_mut() {
+            if *i >= hi {
+                *i -= hi - lo;
+            }
+        }
+    }
+
     pub fn to_json(&self) -> Value {
         json!({
             "property": self.property, "engine": "lsp-sim", "seed": self.seed, "run": self.run, "hash_seed": self.hash_seed,
@@ -403,6 +419,7 @@ impl Session {
             "workload": self.ops.iter().map(|p| { let mut j = p.op.to_json(); if !p.cuts.is_empty() { j["cuts"] = json!(p.cuts); } if !p.tags.is_empty() { j["tags"] = json!(p.tags); } j }).collect::<Vec<_>>(),
             "faults": self.crashes.iter().map(|(t, e)| json!({"kind":"crash","task":t,"at_salsa_event":e}))
                 .chain(self.midload.iter().map(|(k, d)| json!({"kind":"disk_mid_operation","at_disk_point":k,"disk":Op::Disk(d.clone()).to_json()})))
+                .chain(self.midload_at.iter().map(|(i, k, d)| json!({"kind":"disk_mid_operation","after_op":i,"at_disk_point":k,"disk":Op::Disk(d.clone()).to_json()})))
                 .collect::<Vec<_>>(),
             "decisions": self.decisions,
             "meta": self.meta,
@@ -427,7 +444,11 @@ impl Session {
                 tags: o["tags"].as_array().map(|c| c.iter().map(|x| x.as_str().unwrap_or("").to_string()).collect()).unwrap_or_default(),
             }).collect()).unwrap_or_default(),
             crashes: v["faults"].as_array().map(|a| a.iter().filter(|f| f["kind"] == "crash").map(|f| (f["task"].as_u64().unwrap_or(0), f["at_salsa_event"].as_u64().unwrap_or(0))).collect()).unwrap_or_default(),
-            midload: v["faults"].as_array().map(|a| a.iter().filter(|f| f["kind"] == "disk_mid_operation").filter_map(|f| match Op::from_json(&f["disk"]) {
+            midload_at: v["faults"].as_array().map(|a| a.iter().filter(|f| f["kind"] == "disk_mid_operation" && f["after_op"].is_u64()).filter_map(|f| match Op::from_json(&f["disk"]) {
+                Op::Disk(d) => Some((f["after_op"].as_u64().unwrap_or(0) as usize, f["at_disk_point"].as_u64().unwrap_or(0), d)),
+                _ => None,
+            }).collect()).unwrap_or_default(),
+            midload: v["faults"].as_array().map(|a| a.iter().filter(|f| f["kind"] == "disk_mid_operation" && !f["after_op"].is_u64()).filter_map(|f| match Op::from_json(&f["disk"]) {
                 Op::Disk(d) => Some((f["at_disk_point"].as_u64().unwrap_or(0), d)),
                 _ => None,
             }).collect()).unwrap_or_default(),
@@ -509,12 +530,22 @@ impl History {
 
 pub fn apply_disk(root: &str, d: &DiskOp) {
     let full = |p: &str| format!("{root}/{p}");
+    // writing to a path that an earlier fault turned into a FIFO would put the *simulator* to
+    // sleep in open(2): whatever is there that is not a regular file goes first
+    let clear = |f: &str| {
+        if let Ok(md) = std::fs::symlink_metadata(f) {
+            if !md.is_file() && !md.is_dir() {
+                let _ = std::fs::remove_file(f);
+            }
+        }
+    };
     match d {
         DiskOp::Write { path, text } => {
             let f = full(path);
             if let Some(parent) = std::path::Path::new(&f).parent() {
                 let _ = std::fs::create_dir_all(parent);
             }
+            clear(&f);
             let _ = std::fs::write(f, text);
         }
         DiskOp::WriteBytes { path, bytes } => {
@@ -522,6 +553,7 @@ pub fn apply_disk(root: &str, d: &DiskOp) {
             if let Some(parent) = std::path::Path::new(&f).parent() {
                 let _ = std::fs::create_dir_all(parent);
             }
+            clear(&f);
             let _ = std::fs::write(f, bytes);
         }
         DiskOp::Remove { path } => {
@@ -577,8 +609,9 @@ pub fn run_session(s: &Session, keep_log: bool) -> History {
             st.task_crash_plan.insert(*t, *e);
         }
         // the loader's disk points are decision points only in sessions that plan a fault there
-        st.gate_disk_points = !s.midload.is_empty();
+        st.gate_disk_points = !s.midload.is_empty() || !s.midload_at.is_empty();
     });
+    crate::sysseam::ENABLED.store(!s.midload.is_empty() || !s.midload_at.is_empty(), std::sync::atomic::Ordering::SeqCst);
     hooks::install(Some(Arc::new(Handle(core.clone()))));
     let pipe = Pipe::new(core.clone());
     let mexit = Arc::new(Mutex::new(MExit { reason: None }));
@@ -653,6 +686,8 @@ pub fn run_session(s: &Session, keep_log: bool) -> History {
     // `disk:*` points the main loop has been seen at: (count, step at which it parked last)
     let mut disk_points = 0u64;
     let mut last_disk_park: Option<u64> = None;
+    let mut anchor_op: Option<usize> = None;
+    let mut points_since_anchor = 0u64;
 
     loop {
         let mut st = match core.wait_settled() {
@@ -704,7 +739,7 @@ pub fn run_session(s: &Session, keep_log: bool) -> History {
         st = core.lock();
         // ---- disk fault inside an operation: the main loop is parked between two of the
         // loader's accesses to the disk (it looked, it has not read yet)
-        if !s.midload.is_empty() {
+        if !s.midload.is_empty() || !s.midload_at.is_empty() {
             let at = {
                 let t = &st.threads[&m];
                 match (&t.status, &t.point) {
@@ -716,6 +751,21 @@ pub fn run_session(s: &Session, keep_log: bool) -> History {
                 if last_disk_park != Some(parked) {
                     last_disk_park = Some(parked);
                     disk_points += 1;
+                    // faults anchored to an operation count the points since that operation was sent
+                    let last_sent = h.events.iter().rev().find_map(|e| match e { Ev::Sent { op, .. } => Some(*op), _ => None });
+                    if last_sent != anchor_op {
+                        anchor_op = last_sent;
+                        points_since_anchor = 0;
+                    }
+                    points_since_anchor += 1;
+                    let anchored = s.midload_at.iter().filter(|(i, k, _)| Some(*i) == anchor_op && *k == points_since_anchor).map(|(_, _, d)| d);
+                    for d in anchored {
+                        apply_disk(&s.root, d);
+                        *h.faults.entry("disk_mid_operation".into()).or_insert(0) += 1;
+                        *h.faults.entry(format!("disk_mid_operation@{label}")).or_insert(0) += 1;
+                        *h.faults.entry("disk_mid_operation.anchored_to_message".into()).or_insert(0) += 1;
+                        st.log(Some(0), || format!("disk fault at {label} #{points_since_anchor} after op {anchor_op:?}"));
+                    }
                     for (k, d) in &s.midload {
                         if *k == disk_points {
                             apply_disk(&s.root, d);
@@ -931,6 +981,7 @@ pub fn run_session(s: &Session, keep_log: bool) -> History {
     }
     let drained = drained || core.wait_all_done(Duration::from_millis(if patience == 2 { 300 } else { 5_000 }));
     hooks::install(None);
+    crate::sysseam::ENABLED.store(false, std::sync::atomic::Ordering::SeqCst);
     if drained {
         let _ = m_join.join();
         if h.stall.is_some() {
